@@ -90,5 +90,5 @@ class BezierPatch:
         # add faces
         for i in range(n1-1):
             for j in range(n2-1):
-                out.faces.append(( i*n1+j, i*n1+j+1, (i+1)*n1+j+1, (i+1)*n1+j))
+                out.faces.append(( i*n2+j, i*n2+j+1, (i+1)*n2+j+1, (i+1)*n2+j))
         return SurfaceMesh(out)
